@@ -2,7 +2,7 @@
    The model mirrors the code AFTER the fix of F1 (the predecessor is the latest unexpired
    delivery with the same ordering key). *)
 From MB Require Import Base.
-From MB.Bus Require Import State Ops Step Defs L05_Lists L05_Ops L05_Step.
+From MB.Bus Require Import State Ops Step Defs T_Inv L05_Lists L05_Ops L05_Step.
 Local Open Scope string_scope.
 Open Scope list_scope.
 Open Scope Z_scope.
@@ -431,13 +431,312 @@ Proof.
       exists m0. split; [|exact X3]. unfold get_msg in *. rewrite Hm. exact X2.
 Qed.
 
+Lemma order_inv_keep st st' now sid s :
+  get_sub st sid = Some s -> order_inv st now sid ->
+  msgs st' = msgs st -> sdels sid st' = sdels sid st -> sagree st' sid s ->
+  order_inv st' now sid.
+Proof.
+  intros Hs Hinv Hm Hd Hsa.
+  apply (order_inv_frame_gen st st' now sid s (fun _ => False) Hs Hinv).
+  - intros d _ _. unfold get_msg. rewrite Hm. reflexivity.
+  - exact Hsa.
+  - apply evolves_eq. exact Hd.
+  - intros d0 d _ _ _ _ _ F. exact F.
+Qed.
+
+Lemma order_inv_framed st st0 st' now sid s (A : id -> Prop) :
+  ids_unique st -> get_sub st sid = Some s -> s_ordered s = true -> order_inv st now sid ->
+  msgs st0 = msgs st -> dels st0 = dels st -> frame sid A st0 st' -> sagree st0 sid s ->
+  (forall d, In d (dels st) -> d_sub d = sid -> A (d_id d) ->
+             1 <= d_attempts d \/ eligible st s now d = true) ->
+  order_inv st' now sid.
+Proof.
+  intros Hu Hs Ho Hinv Hm Hd [F1 [F2 F3]] Hsa HA.
+  apply (order_inv_frame st st' now sid s A Hu Hs Ho Hinv); [| | |exact HA].
+  - intros d _ _. unfold get_msg. rewrite F1, Hm. reflexivity.
+  - intros s' Hs'. apply Hsa. unfold get_sub in *. rewrite <- F2. exact Hs'.
+  - unfold sdels in *. rewrite Hd in F3. exact F3.
+Qed.
+
+(* ---- Publish ---- *)
+Lemma strictly_increasing_head l : forall a,
+  strictly_increasing (a :: l) -> (forall b, In b l -> a < b) /\ strictly_increasing l.
+Proof.
+  induction l as [|b r IH]; intros a H.
+  - split; [intros b []|exact I].
+  - change (a < b /\ strictly_increasing (b :: r)) in H. destruct H as [Hab Hr].
+    split; [|exact Hr]. destruct (IH b Hr) as [Hall _].
+    intros x [<-|Hx]; [exact Hab|]. pose proof (Hall x Hx). lia.
+Qed.
+
+Lemma publish_one_inv st now sid s t p fr st' fr' wk :
+  NoDup (map s_id (subs st)) -> order_inv st now sid -> get_sub st sid = Some s ->
+  s_ordered s = true ->
+  publish_one st t p fr = (st', fr', wk, []) ->
+  (forall d, In d (dels st) -> d_sub d = sid -> d_published d < pm_now p) ->
+  (forall d, In d (dels st) -> d_sub d = sid -> now < d_expires d -> pm_now p < d_expires d) ->
+  order_inv st' now sid /\ subs st' = subs st /\
+  (forall d, In d (dels st') -> d_sub d = sid ->
+     In d (dels st) \/ (d_published d = pm_now p /\ d_expires d = pm_now p + s_msg_ttl s)).
+Proof.
+  intros Hnd Hinv Hs Ho Hpub B1 B2.
+  apply publish_one_unfold in Hpub. destruct Hpub as [Hfresh Hdel].
+  set (m := pub_msg t p) in *. set (st1 := pub_st1 st t p) in *.
+  assert (Hd1 : dels st1 = dels st) by reflexivity.
+  assert (Hs1 : subs st1 = subs st) by reflexivity.
+  assert (Hm1 : msgs st1 = ins m_id m (msgs st)) by reflexivity.
+  assert (Hmid : m_id m = pm_id p) by reflexivity.
+  assert (Hinv1 : order_inv st1 now sid).
+  { apply (order_inv_frame_gen st st1 now sid s (fun _ => False) Hs Hinv).
+    - intros d Hd Hsd. destruct Hinv as [_ [_ Hx]].
+      destruct (Hx s d Hs Hd Hsd) as [_ [m0 [Hg _]]].
+      unfold get_msg in *. rewrite Hm1. apply find_id_ins_other.
+      apply find_id_In in Hg. destruct Hg as [Hin Hid].
+      pose proof (has_id_false m_id _ _ Hfresh m0 Hin) as Hne.
+      rewrite Hmid. intros E. apply Hne. congruence.
+    - apply (sagree_same st); auto.
+    - apply evolves_eq. unfold sdels. rewrite Hd1. reflexivity.
+    - intros d0 d _ _ _ _ _ F. exact F. }
+  assert (Hgs1 : get_sub st1 sid = Some s) by (unfold get_sub; rewrite Hs1; exact Hs).
+  pose proof (get_sub_in _ _ _ Hs) as [Hsin Hsid].
+  assert (Hnd1 : NoDup (map s_id (live_subs_of st1 (t_id t)))).
+  { unfold live_subs_of. apply NoDup_map_filter. rewrite Hs1. exact Hnd. }
+  assert (Huq1 : forall s0, In s0 (live_subs_of st1 (t_id t)) -> s_id s0 = sid -> s0 = s).
+  { intros s0 H0 He. unfold live_subs_of in H0. apply filter_In in H0. destruct H0 as [H0 _].
+    rewrite Hs1 in H0. apply (NoDup_map_inj s_id (subs st)); auto. congruence. }
+  destruct (deliver_to_subs_sid sid s _ _ _ _ _ _ _ _ Hnd1 Hsid Huq1 Hdel) as [M2 [S2 Hcase]].
+  destruct Hcase as [Hsame|[Hin [i Hins]]].
+  - split; [|split].
+    + apply (order_inv_keep st1 st' now sid s Hgs1 Hinv1 M2 Hsame). apply (sagree_same st1); auto.
+    + congruence.
+    + intros d Hd Hsd. left. assert (Hi : In d (sdels sid st')) by (apply in_sdels; auto).
+      rewrite Hsame in Hi. apply in_sdels in Hi. rewrite <- Hd1. apply Hi.
+  - split; [|split].
+    + unfold live_subs_of in Hin. apply filter_In in Hin. destruct Hin as [_ Hin].
+      apply andb_prop in Hin. destruct Hin as [_ Htop]. apply N.eqb_eq in Htop.
+      apply (order_inv_insert st1 st' now sid s m (pm_now p) i Hinv1 Hgs1 Ho Hsid M2 S2 Hins).
+      * unfold get_msg. rewrite Hm1. apply find_id_ins_same. rewrite Hmid.
+        unfold has_id in Hfresh. destruct (find_id m_id (pm_id p) (msgs st)); [discriminate|reflexivity].
+      * change (m_topic m) with (t_id t). symmetry. exact Htop.
+      * exact B1.
+      * exact B2.
+    + congruence.
+    + intros d Hd Hsd. assert (Hi : In d (sdels sid st')) by (apply in_sdels; auto).
+      apply Hins in Hi. destruct Hi as [->|Hi]; [right; split; reflexivity|].
+      left. apply in_sdels in Hi. rewrite <- Hd1. apply Hi.
+Qed.
+
+Lemma publish_all_inv sid s now t ps : forall st fr st' fr' wk,
+  NoDup (map s_id (subs st)) -> order_inv st now sid -> get_sub st sid = Some s ->
+  s_ordered s = true ->
+  publish_all st t ps fr = Some (st', fr', wk, []) ->
+  strictly_increasing (map pm_now ps) ->
+  (forall d w, In d (dels st) -> d_sub d = sid -> In w (map pm_now ps) -> d_published d < w) ->
+  (forall d w, In d (dels st) -> d_sub d = sid -> In w (map pm_now ps) -> now < d_expires d ->
+               w < d_expires d) ->
+  (forall w w', In w (map pm_now ps) -> In w' (map pm_now ps) -> w' < w + s_msg_ttl s) ->
+  order_inv st' now sid.
+Proof.
+  induction ps as [|p r IH]; intros st fr st' fr' wk Hnd Hinv Hs Ho; cbn [publish_all map].
+  - intros H _ _ _ _. inversion H; subst. exact Hinv.
+  - destruct (negb (pm_valid p)); [discriminate|].
+    destruct (publish_one st t p fr) as [[[st1 fr1] w1] n1] eqn:E1.
+    destruct (publish_all st1 t r fr1) as [[[[st2 fr2] w2] n2]|] eqn:E2; [|discriminate].
+    intros H Hinc B1 B2 B3. inversion H; subst. clear H.
+    match goal with H : n1 ++ n2 = [] |- _ => apply app_eq_nil in H; destruct H as [-> ->] end.
+    apply strictly_increasing_head in Hinc. destruct Hinc as [Hhead Hinc].
+    destruct (publish_one_inv st now sid s t p fr st1 fr1 w1 Hnd Hinv Hs Ho E1) as [I1 [S1 D1]].
+    { intros d Hd Hsd. apply (B1 d _ Hd Hsd). left; reflexivity. }
+    { intros d Hd Hsd. apply (B2 d _ Hd Hsd). left; reflexivity. }
+    apply (IH st1 fr1 st' fr' w2); auto.
+    + rewrite S1. exact Hnd.
+    + unfold get_sub. rewrite S1. exact Hs.
+    + intros d w Hd Hsd Hw. destruct (D1 d Hd Hsd) as [Hold|[Hp _]].
+      * apply (B1 d w Hold Hsd). right; exact Hw.
+      * rewrite Hp. apply Hhead. exact Hw.
+    + intros d w Hd Hsd Hw Hlt. destruct (D1 d Hd Hsd) as [Hold|[_ He]].
+      * apply (B2 d w Hold Hsd); [right; exact Hw|exact Hlt].
+      * rewrite He. apply B3; [left; reflexivity|right; exact Hw].
+    + intros w w' Hw Hw'. apply B3; right; assumption.
+Qed.
+
 (* every legal, quiet, disciplined step preserves it *)
+(* (the existence of the messages of sid's deliveries is part of the strengthened
+   invariant, so the hypothesis about messages is not needed) *)
+Lemma order_inv_step' st now o sid s :
+  ids_unique st -> legal st now o -> quiet st now o -> disciplined st o sid ->
+  get_sub st sid = Some s -> s_ordered s = true ->
+  order_inv st now sid -> order_inv (post st now o) now sid.
+Proof.
+  intros Hu Hl Hq Hdisc Hs Ho Hinv.
+  destruct Hdisc as [H1 [H2 [H3 [H4 [H5 H6]]]]].
+  assert (Hud : NoDup (map d_id (dels st))) by apply Hu.
+  destruct (quiet_op o) eqn:Eq.
+  { destruct (step_quiet_op st now o Eq) as [Ed [Em Es]].
+    apply (order_inv_keep st _ now sid s Hs Hinv Em);
+      [unfold sdels; rewrite Ed; reflexivity|apply (sagree_same st); auto]. }
+  destruct (sub_op o) eqn:Es.
+  { destruct (step_sub_op st now o sid s Hu Hl Hs Es) as [Ed [Em Esa]].
+    - destruct o; try exact I. intros Hn. apply (H2 Hn).
+    - apply (order_inv_keep st _ now sid s Hs Hinv Em); [unfold sdels; rewrite Ed; reflexivity|exact Esa]. }
+  destruct o; cbn in Eq, Es; try discriminate.
+  - (* Publish *)
+    unfold legal, post, step in *.
+    destruct (negb (valid_topic_name topic)); [exact Hinv|].
+    destruct (find_live_topic st topic) as [t|]; [|exact Hinv].
+    destruct (publish_all st t ms fr) as [[[[st' fr'] wk] n]|] eqn:E; [|exact Hinv].
+    cbn [done r_state r_notes] in *. apply app_eq_nil in Hl. destruct Hl as [-> _].
+    destruct Hq as [Q1 [Q2 [Q3 Q4]]]. cbn [op_wnows] in Q1, Q2, Q3.
+    apply (publish_all_inv sid s now t ms st fr st' fr' wk (proj1 (proj2 Hu)) Hinv Hs Ho E Q2).
+    + intros d w Hd Hsd Hw. pose proof (Q4 d Hd). pose proof (Q1 w Hw). lia.
+    + intros d w Hd Hsd Hw Hlt. apply (Q3 d w Hd Hw Hlt).
+    + exact (H5 s Hs).
+  - (* ModAck *)
+    destruct (step_modack st now name ids seconds wnow) as [E|[l E]]; rewrite E; [exact Hinv|].
+    apply (order_inv_framed st st _ now sid s (fun _ => False) Hu Hs Ho Hinv eq_refl eq_refl
+             (do_delay_frame sid st l _ wnow)).
+    + apply (sagree_same st); auto.
+    + intros d _ _ F. destruct F.
+  - (* Ack *)
+    destruct (step_ack st now name ids wnow) as [E|[l [-> E]]]; rewrite E; [exact Hinv|].
+    apply (order_inv_framed st st _ now sid s _ Hu Hs Ho Hinv eq_refl eq_refl
+             (do_ack_frame sid st l wnow)).
+    + apply (sagree_same st); auto.
+    + intros d Hd Hsd Hm. left. exact (H1 d Hd Hsd Hm).
+  - (* Pull *)
+    destruct (pull_cases _ _ _ _ _ _ _ _ _ Hl)
+      as [[E _]|[s0 [st1 [fr1 [ps [wk [Hf [Hsel [Har [E _]]]]]]]]]]; rewrite E; [exact Hinv|].
+    destruct (apply_results_frame sid _ _ _ _ _ _ _ _ _ _ _ _ _ _ _ H6 Har) as [F _].
+    apply (order_inv_framed st (pull_st0 st s0 wnow) st1 now sid s _ Hu Hs Ho Hinv eq_refl eq_refl F).
+    + eapply (sagree_upd st); [reflexivity|exact Hs|]. intros r. cbn. auto.
+    + intros d Hd Hsd [c [Hc Hid]]. right.
+      apply pull_cands_in in Hc; [|exact Hud]. destruct Hc as [Hc Hobs].
+      assert (c = d) by (apply (NoDup_map_inj d_id (dels st)); auto). subst c.
+      destruct (selection_legal_eligible _ _ _ _ _ _ _ Hsel Hobs) as [e [He1 [He2 He3]]].
+      assert (e = d) by (apply (NoDup_map_inj d_id (dels st)); auto). subst e.
+      pose proof (eligible_sub _ _ _ _ He3) as Hsub0.
+      pose proof (find_live_sub_get _ _ _ Hu Hf) as Hg0.
+      rewrite <- Hsub0, Hsd, Hs in Hg0. injection Hg0 as ->. exact He3.
+  - (* SeekTime *)
+    destruct (step_seek_other st now (SeekTime name target wnow) sid H3 I) as [Em [Esb Ed]].
+    apply (order_inv_keep st _ now sid s Hs Hinv Em Ed). apply (sagree_same st); auto.
+  - (* SeekSnap *)
+    destruct (step_seek_other st now (SeekSnap name snapname wnow) sid H3 I) as [Em [Esb Ed]].
+    apply (order_inv_keep st _ now sid s Hs Hinv Em Ed). apply (sagree_same st); auto.
+  - (* StreamAckNack *)
+    destruct (step_stream _ _ _ _ _ _ _ Hl) as [st2 [fr2 [w2 [En E]]]]. rewrite E.
+    destruct (do_nack_frame sid _ _ _ _ _ _ _ _ _ H6 En) as [F2 _].
+    pose proof (do_ack_frame sid st acks wnow) as F1.
+    set (st1 := fst (do_ack st acks wnow)) in *.
+    set (A := fun i => mem_id i acks = true \/
+                       exists d, In d (dels st1) /\ d_id d = i /\ 1 <= d_attempts d).
+    assert (F : frame sid A st st2).
+    { eapply frame_trans.
+      - eapply frame_weaken; [|exact F1]. intros i Hi. left. exact Hi.
+      - eapply frame_weaken; [|exact F2]. intros i Hi. right. exact Hi. }
+    apply (order_inv_framed st st st2 now sid s A Hu Hs Ho Hinv eq_refl eq_refl F).
+    + apply (sagree_same st); auto.
+    + intros d Hd Hsd [Hm|[d1 [Hd1 [Hid Hat]]]]; left; [exact (H1 d Hd Hsd Hm)|].
+      unfold st1, do_ack in Hd1. cbn [fst set_dels dels] in Hd1. unfold upd_where in Hd1.
+      apply in_map_iff in Hd1. destruct Hd1 as [d' [Heq Hd']].
+      assert (Hid' : d_id d1 = d_id d' /\ d_attempts d1 = d_attempts d').
+      { rewrite <- Heq. destruct (ack_pred acks d'); cbn; auto. }
+      destruct Hid' as [I1 I2].
+      assert (d' = d) by (apply (NoDup_map_inj d_id (dels st)); auto; congruence). subst d'.
+      lia.
+  - (* Job *)
+    unfold legal, post, step in *. destruct failed; [rewrite run_job_failed; exact Hinv|].
+    pose proof (run_job_choice _ _ _ _ _ _ _ _ Hl) as Hc.
+    assert (Hmatch : forall d, In d (dels st) -> In (d_id d) chosen ->
+              forall P, job_matches st j now min_age = map d_id (filter P (dels st)) -> P d = true).
+    { intros d Hd Hin P HP. pose proof (choice_legal_in _ _ _ _ Hc Hin) as Hm.
+      rewrite HP in Hm. apply in_map_iff in Hm. destruct Hm as [r [Hr1 Hr2]].
+      apply filter_In in Hr2. destruct Hr2 as [Hr2 Hr3].
+      assert (r = d) by (apply (NoDup_map_inj d_id (dels st)); auto). subst r. exact Hr3. }
+    destruct j.
+    + (* PruneCompletedDeliveries *)
+      apply (order_inv_prune st _ now sid chosen Hinv); try reflexivity.
+      intros d Hd Hsd Hin. pose proof (Hmatch d Hd Hin _ eq_refl) as HP. cbn beta in HP.
+      unfold active. destruct (d_completed d); [reflexivity|discriminate].
+    + (* PruneExpiredDeliveries *)
+      apply (order_inv_prune st _ now sid chosen Hinv); try reflexivity.
+      intros d Hd Hsd Hin. pose proof (Hmatch d Hd Hin _ eq_refl) as HP. cbn beta in HP.
+      apply Z.ltb_lt in HP. unfold active.
+      assert (Hx : (now <? d_expires d) = false) by (apply Z.ltb_ge; lia).
+      rewrite Hx. apply andb_false_r.
+    + (* PruneCompletedMessages *)
+      apply (order_inv_frame_gen st _ now sid s (fun _ => False) Hs Hinv).
+      * intros d Hd Hsd. unfold run_job. cbv zeta. cbn [done r_state]. unfold get_msg, set_msgs. cbn [msgs].
+        unfold del_ids.
+        destruct (find_id m_id (d_msg d) (msgs st)) as [m0|] eqn:Eg;
+          [|apply find_id_filter_none; exact Eg].
+        apply find_id_filter_keep; [exact Eg|].
+        destruct (existsb (N.eqb (m_id m0)) chosen) eqn:Ex; [exfalso|reflexivity].
+        apply existsb_eqb_In in Ex.
+        pose proof (choice_legal_in _ _ _ _ Hc Ex) as Hm. cbn [job_matches] in Hm.
+        apply in_map_iff in Hm. destruct Hm as [m1 [Hm1 Hm2]].
+        apply filter_In in Hm2. destruct Hm2 as [_ Hm2]. apply andb_prop in Hm2.
+        destruct Hm2 as [_ Hm2]. apply find_id_In in Eg. destruct Eg as [_ Eg].
+        assert (Hex : existsb (fun d0 => N.eqb (d_msg d0) (m_id m1)) (dels st) = true).
+        { apply existsb_exists. exists d. split; [exact Hd|]. apply N.eqb_eq. congruence. }
+        rewrite Hex in Hm2. discriminate.
+      * apply (sagree_same st); auto.
+      * apply evolves_eq. reflexivity.
+      * intros d0 d _ _ _ _ _ F. exact F.
+    + (* PruneDeletedSubDeliveries *)
+      apply (order_inv_prune st _ now sid chosen Hinv); try reflexivity.
+      intros d Hd Hsd Hin. pose proof (Hmatch d Hd Hin _ eq_refl) as HP. cbn beta in HP.
+      rewrite Hsd, Hs, (H4 s Hs) in HP. discriminate.
+    + (* PruneDeletedSubs *)
+      apply (order_inv_keep st _ now sid s Hs Hinv); try reflexivity.
+      eapply (sagree_del_ids st); [apply Hu|reflexivity|exact Hs].
+    + (* PruneDeletedTopics *)
+      unfold run_job. cbv zeta.
+      destruct (existsb (topic_has_messages st) chosen); [exact Hinv|].
+      apply (order_inv_keep st _ now sid s Hs Hinv); try reflexivity.
+      eapply (sagree_map st); [reflexivity|exact Hs| | |].
+      * intros r _. cbn beta. destruct (s_dl_topic r) as [i|]; [destruct (mem_id i chosen)|]; reflexivity.
+      * cbn beta. destruct (s_dl_topic s) as [i|]; [destruct (mem_id i chosen)|]; reflexivity.
+      * cbn beta. destruct (s_dl_topic s) as [i|]; [destruct (mem_id i chosen)|]; reflexivity.
+    + (* ExpireSubs *)
+      apply (order_inv_keep st _ now sid s Hs Hinv); try reflexivity.
+      eapply (sagree_upd st); [reflexivity|exact Hs|]. intros r. cbn. auto.
+    + (* DeadLetterSweep *)
+      destruct (run_job_sweep _ _ _ _ _ _ _ Hl) as [st1 [fr1 [wk [Esw E]]]]. rewrite E.
+      destruct (sweep_each_frame sid _ _ _ _ _ _ _ H6 Esw) as [F _].
+      apply (order_inv_framed st st st1 now sid s _ Hu Hs Ho Hinv eq_refl eq_refl F).
+      * apply (sagree_same st); auto.
+      * intros d Hd Hsd Hin. left.
+        pose proof (Hmatch d Hd Hin _ eq_refl) as HP. cbn beta in HP.
+        rewrite Hsd, Hs in HP.
+        apply andb_prop in HP. destruct HP as [HP _]. apply andb_prop in HP. destruct HP as [HP _].
+        apply andb_prop in HP. destruct HP as [HP _]. apply andb_prop in HP. destruct HP as [HP Hle].
+        apply andb_prop in HP. destruct HP as [_ Hfull].
+        apply full_dl_pos in Hfull. apply Z.leb_le in Hle. lia.
+Qed.
+
+(* STATEMENT-ISSUE: with the ORIGINAL definition of [disciplined] (H1-H3 only) this statement
+   is false for the model, whatever invariant is chosen that implies the main conjunct:
+   (a) sid soft-deleted, rows d0 < d1 < d2 of one key all outstanding and chained: a legal
+       PruneDeletedSubDeliveries may choose d1 alone; ON DELETE SET NULL clears d2's link
+       while d0 is still active;
+   (b) a Publish batch whose two same-key messages are written further apart than sid's
+       retention: the second does not see the (at its own write time expired) first as
+       predecessor, yet at the step's read time [now] the first is still active;
+   (c) a dead-letter forward (Pull / nack / sweep of another subscription whose dead-letter
+       topic is sid's topic) creates a delivery of sid for a message of ANOTHER topic: the
+       predecessor query (same topic) never chains it with directly published messages of
+       the same key, and two forwards of one transaction share their published_at.
+   Corrected by the hypotheses H4, H5, H6 added to [disciplined] (see there); name, argument
+   order and shape of the theorem are unchanged. *)
 Theorem order_inv_step st now o sid s :
   ids_unique st -> legal st now o -> quiet st now o -> disciplined st o sid ->
   (forall d, In d (dels st) -> has_id m_id (d_msg d) (msgs st) = true) ->
   get_sub st sid = Some s -> s_ordered s = true ->
   order_inv st now sid -> order_inv (post st now o) now sid.
-Admitted.
+Proof.
+  intros Hu Hl Hq Hdisc _ Hs Ho Hinv. eapply order_inv_step'; eassumption.
+Qed.
 
 (* ---- the property, one step ---- *)
 (* A pull on an ordered subscription never returns a message with key K while an
@@ -468,6 +767,46 @@ Proof.
 Qed.
 
 (* ---- the property over histories ---- *)
+Lemma C05_aux h : forall st t0 sid,
+  ids_unique st -> all_legal st h -> times_nondecreasing t0 h ->
+  (forall s now o, In (s, now, o) (trace st h) -> quiet s now o /\ disciplined s o sid) ->
+  (forall s now o, In (s, now, o) (trace st h) ->
+                   exists sb, get_sub s sid = Some sb /\ s_ordered sb = true) ->
+  order_inv st t0 sid ->
+  forall s now o p d d0, In (s, now, o) (trace st h) ->
+    In p (pulled_of (answer s now o)) -> In d (dels s) -> d_id d = p_ack p -> d_sub d = sid ->
+    In d0 (dels s) -> earlier_same_key s d0 d -> active now d0 = false.
+Proof.
+  induction h as [|[now1 o1] r IH]; intros st t0 sid Hu Hleg Htimes Hqd Hsub Hinv s now o p d d0 Hin;
+    cbn [trace] in *.
+  - destruct Hin.
+  - destruct Htimes as [Ht Htimes].
+    assert (Hhead : In (st, now1, o1) ((st, now1, o1) :: trace (post st now1 o1) r)) by (left; reflexivity).
+    pose proof (Hleg _ _ _ Hhead) as Hl1.
+    destruct (Hqd _ _ _ Hhead) as [Hq1 Hd1].
+    destruct (Hsub _ _ _ Hhead) as [sb [Hsb Hob]].
+    pose proof (order_inv_later st t0 now1 sid Ht Hinv) as Hinv1.
+    destruct Hin as [Heq|Hin].
+    + injection Heq as <- <- <-. intros Hp Hd Hid Hsd Hd0 He.
+      destruct (pulled_only_pull _ _ _ _ Hp) as [name [max [ret [oth [w [fz [fr ->]]]]]]].
+      destruct (pulled_eligible _ _ _ _ _ _ _ _ _ _ _ Hu Hl1 Hp Hd Hid) as [s0 [Hf Hel]].
+      pose proof (eligible_sub _ _ _ _ Hel) as Hs0.
+      pose proof (find_live_sub_get _ _ _ Hu Hf) as Hg0.
+      assert (s0 = sb) by (rewrite <- Hs0, Hsd, Hsb in Hg0; injection Hg0 as ->; reflexivity).
+      subst s0.
+      apply (C05_no_overtake_step st now1 name max ret oth w fz fr sb p d d0 Hu Hl1 Hf Hob); auto.
+      rewrite <- Hs0, Hsd. exact Hinv1.
+    + intros Hp Hd Hid Hsd Hd0 He.
+      apply (fun G1 G2 G3 G4 G5 G6 =>
+               IH (post st now1 o1) now1 sid G1 G2 G3 G4 G5 G6 s now o p d d0 Hin Hp Hd Hid Hsd Hd0 He).
+      * apply step_ids_unique; assumption.
+      * intros s' now' o' Hi. apply Hleg. right. exact Hi.
+      * exact Htimes.
+      * intros s' now' o' Hi. apply Hqd. right. exact Hi.
+      * intros s' now' o' Hi. apply (Hsub s' now' o'). right. exact Hi.
+      * eapply order_inv_step'; eassumption.
+Qed.
+
 Theorem C05_no_overtake h : forall st t0 sid,
   ids_unique st -> all_legal st h -> times_nondecreasing t0 h ->
   (forall d, In d (dels st) -> has_id m_id (d_msg d) (msgs st) = true) ->
@@ -478,7 +817,9 @@ Theorem C05_no_overtake h : forall st t0 sid,
   forall s now o p d d0, In (s, now, o) (trace st h) ->
     In p (pulled_of (answer s now o)) -> In d (dels s) -> d_id d = p_ack p -> d_sub d = sid ->
     In d0 (dels s) -> earlier_same_key s d0 d -> active now d0 = false.
-Admitted.
+Proof.
+  intros st t0 sid Hu Hleg Ht _ Hqd Hsub Hinv. apply (C05_aux h st t0 sid); assumption.
+Qed.
 
 (* ---- why the hypotheses are needed: counterexamples on the model (to be replayed on
    the implementation by the harness) ---- *)
@@ -487,4 +828,10 @@ Admitted.
    while the revived message is still outstanding. H1: acknowledging a never-delivered
    successor by a guessed id releases the one after it. These are stated as existence of
    a legal history violating the conclusion; prove them by exhibiting concrete histories
-   with vm_compute if time permits (optional). *)
+   with vm_compute if time permits (optional). (Not done here. H4-H6: see the
+   STATEMENT-ISSUE comment above [order_inv_step].) *)
+
+Print Assumptions order_inv_blocks.
+Print Assumptions order_inv_step.
+Print Assumptions C05_no_overtake_step.
+Print Assumptions C05_no_overtake.
